@@ -510,3 +510,12 @@ for _name in sorted(_os.listdir(_SEEDED)) if _os.path.isdir(_SEEDED) else []:
     if not _meta.get("confirmed"):
         continue
     V(f"seed-{_name}", _meta["property"], "violation", patch=f"seeded/{_name}/patch.diff", note="confirmed property-breaking change from a sub-agent: " + (_meta.get("needs_to_manifest") or ""))
+
+# ------------------------------------------------------------------------------------ behaviour-preserving refactorings kept under /verif/neutral
+_NEUTRAL = _os.path.join(_os.path.dirname(_os.path.dirname(_os.path.abspath(__file__))), "neutral")
+for _name in sorted(_os.listdir(_NEUTRAL)) if _os.path.isdir(_NEUTRAL) else []:
+    _mp = _os.path.join(_NEUTRAL, _name, "meta.json")
+    if not _os.path.exists(_mp):
+        continue
+    _meta = _json.load(open(_mp))
+    V(f"neutral-{_name}", "ALL", _meta.get("expect", "pass"), patch=f"neutral/{_name}/patch.diff", note="behaviour-preserving refactoring from a sub-agent; every property's check must stay quiet")
